@@ -110,43 +110,43 @@ META = {
         "engine": "E3-crashx",
         "technique": "exhaustive crash-point enumeration: the real consumer runs in child processes that are killed with SIGKILL at named hook points (offset x phase), over bounded sequences of crash/restart rounds with appends in between, on real files",
         "text": "For small logs every (offset, phase) crash point with phases callback-entered / callback-returned / before-persist / after-persist / stopped by cancellation / stopped by callback error, all ordered pairs of rounds with 0, 1 or 10 appends in between (thorough: more lengths, all triples for N=8); for a 2600-entry log (segments of 500, truncation at 2000) crash points at every segment/truncation edge and sampled batch positions (thorough: every offset) incl. before/after-truncate, plus pairs over 21 boundary offsets. Per incarnation offsets are consecutive; a restart begins no later than one past the last completed offset and replays at most the last completed one plus the one in progress; payloads match their offsets; a final run hands over everything.",
-        "note": "Crash model: process death (SIGKILL), kernel page cache survives; torn 8-byte writes and power loss are outside the model.",
+        "note": "Crash model: process death (SIGKILL), kernel page cache survives; torn 8-byte writes and power loss are outside the model. 'Handed to the delivery scheduler' is additionally exercised end to end: the real SchedulePublishes + writer queue behind the consumer with the writer stalled by a subscriber that stops reading (E2 phase shared with C02), incl. a 5600-message backlog.",
     },
     "C18": {
         "engine": "E2-brokermc",
         "technique": "exhaustive enumeration of a bounded byte-stream grammar (valid templates x structure-aware mutations x connection contexts) against the in-process broker in crash-contained worker processes, with a witness round trip after every stream",
         "text": "About 20k (quick) / 60k (thorough) byte streams: 20 valid packet templates (all 14 types, CONNECT and SUBSCRIBE variants), truncated at every offset, with every other first byte (type and flag nibbles), 10 remaining-length encodings incl. over-long and 5-byte forms, every inner length prefix in {0, true-1, true+1, 0xffff}, identifier 0/65535, QoS 3, empty topic lists and protocol-level oddities, each as first packet, after CONNECT and after CONNECT+SUBSCRIBE, plus all ordered pairs of valid packets. After each stream the worker process must be alive, the witness connections open, and a witness QoS 1 publish must be acknowledged and delivered within 10 s.",
-        "note": "Limit: streams outside the grammar are not covered (the claim is the grammar and its size); a client that stops reading is a transport-level behaviour outside the quantifier; transient memory for an announced-but-unsent body is not judged.",
+        "note": "Limit: streams outside the grammar are not covered (the claim is the grammar and its size); a client that stops reading is a transport-level behaviour outside the quantifier; transient memory for an announced-but-unsent body is not judged. A path that makes no progress for 75 s of real time is reported as a hang (a spinning or self-deadlocked broker goroutine never lets virtual time advance). After every stream a witness also publishes into the hostile client's own filter space. A second phase sends a valid large PUBLISH in two pieces while up to 45 other clients connect in between.",
     },
     "C17": {
         "engine": "E2-brokermc",
         "technique": "explicit enumeration of two-tenant event sequences on the in-process broker, each executed twice for a differential non-interference oracle plus a direct provenance oracle",
         "text": "Every event sequence up to depth 3 (quick) / 4 (thorough) over 13 events per tenant (subscribe #, +, +/t, t, t/#; publish t, t/u, m2/t with and without retain; will-bearing drop; connect with the other tenant's client identifier) for mount-point pairs (m1,m2), (m1,m10), (m10,m1), on 1 (thorough: also 2) nodes. Every PUBLISH a client receives must carry a (topic, payload) its own tenant published, verbatim; tenant A's complete observation (inbox, liveness, ping) must equal its observation with all of tenant B's events deleted.",
-        "note": "QoS 0 everywhere, so no retransmissions; inboxes compared as multisets.",
+        "note": "Inboxes compared as multisets. Also: QoS 2 publishes started and released as separate events, topics and filters a path-cleaning prefix function would rewrite ('../<other mount>/t', './t', 't//u'), and a node-failure phase: the failing (or gracefully stopped) node hosts interleaved will-bearing sessions of both tenants and each tenant's watcher must get exactly its own wills.",
     },
     "C14": {
         "engine": "E2-brokermc",
         "technique": "exhaustive enumeration of subscriber placements x unreachable-destination subsets x topic/filter pairs on the 2-3 node in-process broker with recording log proxies and fault-injecting inter-node transport",
         "text": "For 2 and 3 nodes: every assignment of {matching, non-matching} subscribers to nodes, every subset of remote nodes unreachable at publish time, 2-4 topic/filter pairs, QoS 1 and 2 (thorough: publisher on either node, subscription gossip of one node withheld). Each node's log must see exactly one successful append iff it hosts a matching subscription known to the publishing node and is reachable, subscribers receive the message exactly once from their own node, an unreachable destination does not stop the others, and the acknowledgement is present iff no destination failed.",
-        "note": "Destinations are computed from the publishing node's own ByPattern at publish time ('known to the publishing node').",
+        "note": "Destinations 'known to the publishing node' are computed from that node's subscription listing with the reference matcher (not from the lookup the publish path uses). Also: the topic published once before anybody subscribes, a second matching subscriber created last on a node, slow (not unreachable) destinations, a remote subscriber that unsubscribed without the publisher being told yet, a local session whose subscription was re-created through another node's RPC API.",
     },
     "C13": {
         "engine": "E2-brokermc",
         "technique": "exhaustive cross product of will parameters x termination causes x watcher placements on the 1-3 node in-process broker under virtual time",
         "text": "Will topic {w, w/x} x QoS {0,1,2} x retain x mount point {default, m1} x cause {DISCONNECT, connection loss, keep-alive expiry, protocol error, failure of the hosting node} x every non-empty subset of watcher nodes on 1-2 (quick) / 1-3 (thorough) nodes, three watchers (w, w/+, #) per node plus one in another mount point: after DISCONNECT nobody receives the will within 10 s; otherwise every surviving watcher of the same mount point whose filter matches receives it exactly once with the topic as the client wrote it, and the foreign watcher receives nothing.",
-        "note": "Watchers acknowledge promptly; which survivor publishes the will after a node failure is free; the retain flag / QoS of the delivered copy are not judged here.",
+        "note": "Watchers acknowledge promptly; which survivor publishes the will after a node failure is free; the retain flag / QoS of the delivered copy are not judged here. Also: empty will payload; a later client with the same client id in another mount point; a second tenant's will-bearing session on the failing node; failure detected 500 ms apart on three nodes; clean DISCONNECT followed by node failure with the removal overtaking the creation, or with the removal gossip lost and only a full-state exchange in between.",
     },
     "C12": {
         "engine": "E2-brokermc",
         "technique": "explicit enumeration of ordered event selections (old-session ping/subscribe/disconnect/drop, single gossip deliveries, new-session subscribe) on a 2-node in-process broker with manually scheduled gossip",
         "text": "Two (thorough: three) connections sharing one client identifier on the same or different nodes, the first record gossiped beforehand; every ordered selection of up to 4 (quick) / 5 (thorough) of 9 events incl. delivering each pending broadcast individually. The new CONNECT is always accepted; once the old session's node holds the new record its next PINGREQ is not answered and it is torn down; the new session's record and subscriptions never disappear from a node that listed them; after all gossip every node resolves the identifier to the newest session.",
-        "note": "Before the displaced session's node has received the new record a PINGRESP is legal; run-to-quiescence between events.",
+        "note": "Before the displaced session's node has received the new record (read from that node's listing) a PINGRESP is legal; run-to-quiescence between events. Also: the new session's own DISCONNECT / drop as events, the accepting node's clock 30 s behind / ahead (outside the stated quantifier, final oracles only), and a chain-of-three phase on three nodes where the third connection meets a node that still holds both earlier records.",
     },
     "C11": {
         "engine": "E2-brokermc",
         "technique": "explicit enumeration of a session-script grammar x termination causes x gossip delivery policies on the 1-3 node in-process broker under virtual time",
         "text": "Every script connect(keep-alive 2|10 s) . up to 2 (quick) / 3 (thorough) middle events (subscribe sets, unsubscribes, ping, idle 1 s / 3.5 s / 0.9K / 1.4K, also directly after CONNACK) . cause (none, DISCONNECT, drop, silence > 2K, second CONNECT, displacement on the same / another node, failure of the hosting node) under gossip policies auto / withhold-all / reverse / withhold-one; the session must survive every legal script, and after a cause the connection is closed, record and subscriptions vanish from every node, nothing more is written to it, and every listed subscription belongs to a listed session connected on the node it names.",
-        "note": "Only silences <= 1.4 x keep-alive are required to be survived (any allowance >= 1.5 x keep-alive satisfies the oracle); the broker may, not must, end a session silent for > 2K; clean broker shutdown is outside the quantifier.",
+        "note": "Scripts also contain deliveries to the session followed by silence, a connection lost between SUBSCRIBE and SUBACK, and keep-alive values at the 16-bit edges (32767, 32768, 32769, 65535). A path keeps being judged after the known finding matched. Only silences <= 1.4 x keep-alive are required to be survived (any allowance >= 1.5 x keep-alive satisfies the oracle); the broker may, not must, end a session silent for > 2K; clean broker shutdown is outside the quantifier.",
     },
     "C05": {
         "engine": "E2-brokermc",
@@ -158,7 +158,7 @@ META = {
         "engine": "E2-brokermc",
         "technique": "explicit enumeration of client response scripts (all interleavings of per-delivery automata) on the complete in-process broker under virtual time, real 1 s expiry ticker",
         "text": "All interleavings of acknowledge / wrong-type / wrong-identifier / silence-past-deadline / disconnect events over 2 in-flight deliveries (QoS 1 and QoS 2; thorough: 3 deliveries over 2 sessions) up to 6-7 events, with the production identifier range and with a 3-identifier pool; the oracle keys on the deadline the implementation registered: every pending delivery is sent again with the same identifier after each silence, PUBREL follows PUBREC, nothing is sent after completion during a 60 s horizon, identifiers of finished deliveries are free and a further message still gets one.",
-        "note": "Run-to-quiescence between client events; the client drains its socket; DUP flag not judged.",
+        "note": "Run-to-quiescence between client events; the client drains its socket; DUP flag not judged. Also in the scripts: a bystander with other QoS levels on the same filters, a failed first transmission (write error injected at the broker's end of the connection), stray QoS 2 acknowledgements for somebody else's identifier, displacement of the subscriber by a newer connection. A second phase (timer-phase) sends one delivery to a silent subscriber for every tenth of a second of sweep-ticker phase x registration time (also 2.5-3.5 s after an acknowledged earlier delivery) and requires a retransmission within 8 s.",
     },
     "C02": {
         "engine": "E2-brokermc",
